@@ -391,7 +391,8 @@ open SparseV.Own
 /-- **code_has_every_edge.** The keep-alive edges READ OFF THE SOURCE (`SparseV.Gen.mlirHoldViews`, `mlirHoldInputs`,
 `mlirFromArraysOwns`, regenerated from `formats.py` / `_conversions.py` by tools/tables.d/C20.py on every run) are:
 `_hold_ref(storage, arr)` for every source array of a non-owning storage, `_hold_ref(view, storage)` for every view of an
-OWNING storage AND for every view of a NON-OWNING storage, and conversions build non-owning storages.  Every ownership
+OWNING storage AND for every view of a NON-OWNING storage, hung on the array at the bottom of NumPy's base chain
+(`mlirHoldOnBaseRoot`: the `while isinstance(arr.base, np.ndarray)` walk), and conversions build non-owning storages.  Every ownership
 theorem below is about `Cfg.code`; it goes through this equation, so it stops checking when an edge becomes conditional. -/
 theorem code_has_every_edge : Cfg.code = Cfg.full := by decide
 
@@ -444,30 +445,27 @@ theorem double_free_counterexample :
   refine ⟨_, rfl, ?_⟩
   decide
 
-/-- `t = to_numpy(add(x, x))` for a complex64 / complex128 / float16 array: the result storage (object 0, owning),
-its array (1), the raw-pointer array over the values field (2), its re-view `data` carrying `_hold_ref(data, storage)` (3),
-`t = data.reshape(…).transpose(…)` whose NumPy base is the raw array 2, not `data` (4); `data` goes out of scope when
-`to_numpy` returns, the temporary result array is dropped -/
-def castWitness : List Cmd :=
-  [.opStorage [1], .mkArray 0, .drop 0, .rawField 1 0, .castView 2 1, .npView 3, .drop 2, .drop 3, .finalize 3,
-   .drop 1, .finalize 1, .finalize 0]
-
-/-- **castview_counterexample.** The full statement also fails through the arrays `get_constituent_arrays` returns for an
-element type the MLIR runtime re-views (complex64, complex128, float16): the keep-alive edge hangs on the re-view, NumPy bases
-every further view on the raw array underneath, so `to_numpy`'s result (object 4) does not keep the storage alive — once the
-backend array is gone the owning storage releases buffer 0 while the result still addresses it. -/
+/-- **castview_counterexample.** The base walk of `get_constituent_arrays` is necessary.  For an element type the MLIR runtime
+re-views (complex64, complex128, float16) the array handed back is `raw.view(dtype)` and NumPy bases every further view on `raw`.
+In the variant WITHOUT the walk (`holdOnBaseRoot := false`: the keep-alive hangs on the re-view, as the code did before /repo
+d206752) `castWitness` — `t = to_numpy(add(x, x))`, the temporary dropped — runs to its end: the owning storage is finalised and
+releases buffer 0 while `t` (object 4) and the raw array (2) still address it.  For the code as it is (`Cfg.code`, the flag
+read off the source) the same history stops at its last command: after everything else the storage is still reachable
+(`t` → raw array → storage), there is nothing left to finalise and nothing dangles.  The second and third parts are about the
+generated flag: they stop checking when the walk is removed from the source. -/
 theorem castview_counterexample :
-    (run Cfg.code Heap.empty castWitness).map (fun h => (reachable h, h.freed, dangling h)) = some ([4, 2], [0], [(4, 0), (2, 0)])
-    ∧ ¬ Statement_no_dangling := by
-  refine ⟨by decide, fun h => ?_⟩
-  have h1 := h castWitness _ rfl
-  revert h1
+    (run { Cfg.code with holdOnBaseRoot := false } Heap.empty castWitness).map (fun h => (reachable h, h.freed, dangling h))
+      = some ([4, 2], [0], [(4, 0), (2, 0)])
+    ∧ (run Cfg.code Heap.empty castWitness.dropLast).map (fun h => (reachable h, h.freed ++ garbage h, dangling h))
+      = some ([4, 2, 0], [], [])
+    ∧ run Cfg.code Heap.empty castWitness = none := by
   decide
 
-/-- **no_dangling.** (partial: histories without an aliasing result and without constituent arrays of a re-viewed element type) After ANY history of commands of the code as it is
+/-- **no_dangling.** (partial: histories without an aliasing result) After ANY history of commands of the code as it is
 (`Cfg.code`, read off the source) — the program creating NumPy arrays and SciPy matrices, conversions building NON-OWNING
 storages over them (`_hold_ref(storage, arr)`), results of add/reshape/asformat (OWNING storages, `owns_memory=True`),
-the views of `get_constituent_arrays` of either kind (`_hold_ref(view, storage)`), NumPy views of those (`to_numpy`),
+the views of `get_constituent_arrays` of either kind (`_hold_ref(view, storage)`, for re-viewed element types on the array at
+the bottom of the base chain: `rawField` / `castView`), NumPy views of those (`to_numpy`),
 SciPy matrices over them (`to_scipy`), further references, dropping references to inputs, arrays and outputs in any
 order and finalising unreachable objects one at a time in any order — every buffer addressed by an object that the
 program can still reach has not been released. -/
@@ -551,14 +549,14 @@ theorem inputs_not_written (cfg : Cfg) (cs₁ cs₂ : List Cmd) (h₁ h₂ : Hea
   exact (run_frame cfg cs₂ hl h2).2.2 b hb
 
 /-- **hold_ref_needed.** The code's configuration is the ONLY safe one: for every other choice of which `_hold_ref` loops
-run (for which kind of storage) and of which storage class the conversions build, there is a history with no aliasing
+run (for which kind of storage), of where the keep-alive of a re-viewed array hangs, and of which storage class the conversions build, there is a history with no aliasing
 result — an object graph and a deletion order, `edgeWitness` — after which the program still reaches an object over a
 released buffer.  In particular every edge the code makes is necessary, for owning AND for non-owning storages. -/
 theorem hold_ref_needed (cfg : Cfg) (hne : cfg ≠ Cfg.code) :
     ∃ h, ExcludedHistory (edgeWitness cfg) = false ∧ run cfg Heap.empty (edgeWitness cfg) = some h ∧ dangling h ≠ [] := by
   rw [code_has_every_edge] at hne
-  obtain ⟨a, b, c, d⟩ := cfg
-  cases a <;> cases b <;> cases c <;> cases d <;>
+  obtain ⟨a, b, c, d, e⟩ := cfg
+  cases a <;> cases b <;> cases c <;> cases d <;> cases e <;>
     first
       | exact absurd rfl hne
       | exact ⟨_, by decide, rfl, by decide⟩
@@ -613,13 +611,12 @@ example : (run Cfg.code Heap.empty [.newArray 1, .newArray 2, .newArray 3, .mkSc
     (fun h => (reachable h, h.freed ++ garbage h, dangling h, [refcount h 0, refcount h 4]))
     = some ([9, 8, 7, 6, 4, 2, 1, 0], [], [], [1, 3]) := by decide
 
-/-- the same program as `castWitness` with the keep-alive edge on the array NumPy bases its views on (proposed fix:
-`_hold_ref` on the root of the base chain): no excluded command is needed to describe it — the raw array is an ordinary
-`view` (object 2) holding the storage, `data` a NumPy view of it (3), `t` a view based on 2 (4) — and nothing dangles -/
-example : ExcludedHistory [.opStorage [1], .mkArray 0, .drop 0, .view 1 0, .npView 2, .npView 3, .drop 2, .drop 3, .finalize 3,
-      .drop 1, .finalize 1] = false ∧
-    (run Cfg.code Heap.empty [.opStorage [1], .mkArray 0, .drop 0, .view 1 0, .npView 2, .npView 3, .drop 2, .drop 3, .finalize 3,
-      .drop 1, .finalize 1]).map (fun h => (reachable h, h.freed, dangling h, garbage h)) = some ([4, 2, 0], [], [], []) := by
+/-- with the base walk the two commands for a re-viewed constituent array ARE `view` + `npView`: the same history written with
+either pair reaches the same heap, and it is not an excluded history -/
+example : ExcludedHistory castWitness = false ∧
+    run Cfg.code Heap.empty castWitness.dropLast
+      = run Cfg.code Heap.empty [.opStorage [1], .mkArray 0, .drop 0, .view 1 0, .npView 2, .npView 3, .drop 2, .drop 3, .finalize 3,
+          .drop 1, .finalize 1] := by
   decide
 
 /-- the hypotheses of `hold_ref_needed` are satisfiable, and its witness for the variant of the seeded kind is the
